@@ -41,6 +41,7 @@ def scenarios(tier):
     out.append(dict(name="unsorted-cont-rev", fn="run", params=dict(R=2, N=3, rev=True, cont=1, mmax=1, names=False, unsorted=True), cost=8))
     out.append(dict(name="subtick-continuous", fn="subtick", params=dict(mode="continuous"), cost=3))
     out.append(dict(name="subtick-discrete", fn="subtick", params=dict(mode="discrete"), cost=3))
+    out.append(dict(name="both-positions", fn="run", params=dict(R=2, N=3, rev=False, cont=0, mmax=1, names=False, bothpos=True), cost=5))
     out.append(dict(name="typed-disc", fn="run", params=dict(R=2, N=3, rev=False, cont=0, mmax=2, names=False, typed=True), cost=5))
     out.append(dict(name="typed-cont", fn="run", params=dict(R=2, N=3, rev=False, cont=1, mmax=1, names=True, typed=True), cost=5))
     out.append(dict(name="lonlat", fn="run", params=dict(R=2, N=3, rev=False, cont=0, mmax=1, names=False, lonlat=True), cost=5))
@@ -90,6 +91,10 @@ def run(W, p):
     else:
         cols = ["release_time", "X", "Y", "Z", "mult", "tag", "farm"]
     rows = [[times[i], xs[i], ys[i], zs[i], mult[i], tags[i], farms[i]] for i in range(R)]
+    if p.get("bothpos"):
+        # the table gives the position twice, as X, Y and as lon, lat (documented: X and Y are used); lon/lat are no state variables
+        cols = cols + ["lon", "lat"]
+        rows = [r + [W.real(f"lon{i}"), W.real(f"lat{i}")] for i, r in enumerate(rows)]
     typed = bool(p.get("typed"))
     if typed:
         # two more declared columns: a time (ISO text in the file) and the activity flag written as 0/1
